@@ -199,6 +199,23 @@ def directed():
                 {"op": "inject", "m": 1, "api": "offsetcommit", "nth": 0, "code": code},
                 {"op": "fetch", "m": 1, "n": 2, "commit": "sync", "wait": False}, {"op": "sleep", "ms": ms},
                 {"op": "stopasync", "m": 1}, {"op": "sleep", "ms": 200}]))
+    # a synchronous commit whose caller gives up (context ends) while the OffsetCommit is still in flight on a slow
+    # coordinator, which then answers: Close / the next rebalance must not be blocked by the abandoned request
+    for k, tail in enumerate([[{"op": "stop", "m": 1}], [{"op": "rebalance"}, {"op": "sleep", "ms": 300}, {"op": "fetch", "m": 1, "n": 60, "commit": "sync", "wait": True}]]):
+        out.append(dict(rb, id="D-abandoned-commit-%d" % k, drain=False, steps=[
+            {"op": "start", "m": 1}, {"op": "fetch", "m": 1, "n": 2, "commit": "none", "wait": True},
+            {"op": "hold", "gate": "coord:m1/offsetcommit"}, {"op": "commitlast", "m": 1, "ctxMs": 60}, {"op": "sleep", "ms": 100},
+            {"op": "release", "gate": "coord:m1/offsetcommit"}, {"op": "sleep", "ms": 100}] + tail + [{"op": "sleep", "ms": 100}]))
+    # the generation ends while the application is in the middle of a fetch loop and the prefetch queue is full:
+    # whatever is done with the queued messages of the old subscription, what the application is handed stays gap-free per
+    # subscription and a later commit never covers a record nobody was handed
+    for k, cause in enumerate([[{"op": "rebalance"}], [{"op": "inject", "m": 1, "api": "heartbeat", "nth": 0, "code": 27}], [{"op": "start", "m": 2}]]):
+        for ms in (40, 120, 200):
+            out.append(dict(rb, id="D-end-while-fetching-%d-%d" % (k, ms), topics={"t": 1}, records=3000, qcap=2000, steps=[
+                {"op": "start", "m": 1}, {"op": "sleep", "ms": 150}, {"op": "fetch", "m": 1, "n": 2600, "commit": "none", "wait": False, "paceUs": 150}, {"op": "sleep", "ms": ms}] + cause + [
+                {"op": "sleep", "ms": 400}, {"op": "waitapp", "m": 1}, {"op": "commitlast", "m": 1},
+                {"op": "fetch", "m": 1, "n": 3500, "commit": "none", "wait": True}, {"op": "commitlast", "m": 1}] + ([{"op": "fetch", "m": 2, "n": 3500, "commit": "none", "wait": True},
+                {"op": "commitlast", "m": 2}, {"op": "fetch", "m": 1, "n": 3500, "commit": "none", "wait": True}, {"op": "commitlast", "m": 1}] if k == 2 else [])))
     # crash-like: member evicted while it holds uncommitted messages, another member takes over
     out.append(dict(rb, id="D-evict", steps=[
         {"op": "start", "m": 1}, {"op": "fetch", "m": 1, "n": 4, "commit": "none", "wait": True}, {"op": "start", "m": 2}, {"op": "sleep", "ms": 250},
